@@ -7,7 +7,7 @@ from typing import Callable
 
 replacements = {"!": "not ", "^": " and ", "v": " or "}
 
-pattern = re.compile(r"\!(?!=)|\^|\bv\b")
+pattern = re.compile(r"""("[^"]*"|'[^']*')|\!(?!=)|\^|\bv\b""")
 
 comparison_repr = {
     operator.eq: "==",
@@ -28,6 +28,9 @@ def _unique_key(left, right, operator) -> str:
 def replace_operators(expr: str) -> str:
     # preprocess the expression adding support for classical logical operators
     def match_func(match):
+        if match.group(1) is not None:
+            # quoted string literal: keep it untouched
+            return match.group(1)
         return replacements[match.group(0)]
 
     return pattern.sub(match_func, expr)
